@@ -238,6 +238,40 @@ def coq_smd(kind, U, tree_nodes):
     return f"(SMnew {tbl} {H.coq_bool(kind == 'new')})"
 
 
+MISSING = object()
+
+
+def random_items(rng, n, depth):
+    """a random list of items for from_dict: valid entries mostly, every kind of malformed entry now and then"""
+    def pick(common, rare, p_rare=0.12):
+        return rng.choice(rare) if rng.random() < p_rare else rng.choice(common)
+
+    out = []
+    for _ in range(n):
+        if rng.random() < 0.04:
+            out.append(rng.choice([5, "a", None, [], True]))
+            continue
+        it = {}
+        data = pick(["a", "b", "c", "d", 1, 2], [True, None, [1], {"k": 1}, MISSING, "", 0, -1, -2])
+        if data is not MISSING:
+            it["data"] = data
+        did = pick([MISSING, MISSING, MISSING, "k", 5, 0, ""], [None, True, False, [1], {}, 1, "a"])
+        if did is not MISSING:
+            it["data_id"] = did
+        nid = pick([MISSING] * 6 + [5, 6, 7], [None, 0, "7", "x", "", [1], True, False, -3, "05"])
+        if nid is not MISSING:
+            it["node_id"] = nid
+        if rng.random() < 0.2:
+            it["other"] = rng.choice([1, "x", None, [1, 2]])
+        r = rng.random()
+        if depth < 3 and r < 0.45:
+            it["children"] = random_items(rng, rng.randint(1, 3), depth + 1)
+        elif r < 0.6:
+            it["children"] = pick([[], None], [0, "", False, "ab", {"k": 1}, 5, True, {}])
+        out.append(it)
+    return out
+
+
 def item_dicts(obj):
     """all dicts reachable through 'children' lists, pre-order"""
     out = []
@@ -328,7 +362,7 @@ class Prop:
             "value-equal objects, tuples, ints, dataclasses; identity-hashed objects; '7' next to 7) x the 6 serialisation mappers (none / "
             "set data in place / wrap / new dict keeping or dropping data_id / extra entry read back by the decoder) with the inverse deserialisation mapper (at N nodes: 1 (quick) or 2 "
             "of the 6 mappers per tree); trees under a calc_data_id hook; typed trees; emptied trees (clear, remove of the last top "
-            "node); seeded random trees (5..18 nodes quick, 5..30 thorough); 47 hand-written and malformed dict lists (missing/unhashable data, bad data_id / node_id / children entries, non-dict items); Node.from_dict "
+            "node); seeded random trees (5..18 nodes quick, 5..30 thorough); 47 hand-written + 150 (thorough 1500) random dict lists (missing/unhashable data, bad data_id / node_id / children entries, non-dict items); Node.from_dict "
             "into every node of every forest <= 3 (thorough 4) nodes x 3 calc_data_id hooks x 6 item lists.  Every dump goes through "
             "json.dumps/json.loads before from_dict.  A case is one tree (or one dict list); distinct = distinct desc; non-trivial = >= 3 nodes")
     exhaustive_note = ("all shapes <= 3 nodes x all labelings (2 strings x 5 data_id choices; quick: 2 choices at 3 nodes); "
@@ -462,6 +496,9 @@ class Prop:
                     break
         # (5) hand-written / malformed inputs of from_dict
         yield from LOADS
+        # (5b) random dict lists, mostly valid + malformed entries of every kind (from_dict on ANY input)
+        for _ in range(150 if tier == "quick" else 1500):
+            yield dict(load=random_items(rng, rng.randint(1, 4), 0))
         # (6) Node.from_dict into a node of an existing tree (with and without calc_data_id hook)
         items_pool = [
             [{"data": "a"}],
@@ -820,8 +857,10 @@ class Prop:
 
         nids = [it["node_id"] for it in items if it.get("node_id") is not None]
         nids_ok = all(isinstance(x, int) and not isinstance(x, bool) and x != 0 for x in nids) and len(set(nids)) == len(nids)
-        if not nids_ok and all(isinstance(x, int) for x in nids) and not is_err(rebuilt):
-            return "from_dict: zero or duplicate node_id accepted"
+        if all(isinstance(x, int) for x in nids) and not is_err(rebuilt):   # bool is an int: int(True) == 1
+            vals = [int(x) for x in nids]
+            if 0 in vals or len(set(vals)) != len(vals):
+                return "from_dict: zero or duplicate node_id accepted"
 
         def wf(l):
             return nids_ok and isinstance(l, list) and all(
